@@ -222,6 +222,18 @@ def run(ctx):
         if isinstance(n, ast.Call) and isinstance(n.func, ast.Attribute) and roles.cls.lookup(n.func.attr) is not None and \
                 roles.cls.lookup(n.func.attr).is_static and roles.cls.lookup(n.func.attr) not in helpers:
             helpers.append(roles.cls.lookup(n.func.attr))
+    # the fallback form of an exception that cannot be serialised identifies it by its repr (type and arguments), not by its message only
+    for h in helpers:
+        for d_ in [n for n in ast.walk(h.node) if isinstance(n, ast.Dict)]:
+            for k_, v_ in zip(d_.keys, d_.values):
+                if isinstance(k_, ast.Constant) and isinstance(k_.value, str) and 'repr' in k_.value:
+                    okr = isinstance(v_, ast.Call) and isinstance(v_.func, ast.Name) and v_.func.id == 'repr'
+                    ch.instance('%s: `%s` holds repr(<exception>)' % (h.qualname, k_.value), h.qualname, okr)
+                    if not okr:
+                        res.add(Finding('C03', 'C03.h', 'R-PROV', h.file, h.qualname, v_.lineno, norm(v_)[:80],
+                                        'the fallback form of an unserialisable exception stores `%s` under %r: exceptions that differ only in what the '
+                                        'message does not show (other arguments) are recorded identically, so a changed raised exception is not seen '
+                                        'as a difference' % (norm(v_)[:60], k_.value)))
     for h in helpers:
         bad = rm.stateful_constructs(h)
         ch.instance('%s keeps no state across calls' % h.qualname, h.qualname, not bad)
